@@ -52,7 +52,7 @@ pub enum WOp {
 	Slice,
 	/// dir: 0 iter(), 1 iter_rev(), 2 IntoIterator for &Window; consume k items; ask: see `ITER_ASKS`
 	Iter { dir: u8, k: u64, ask: u8 },
-	/// how: 0 from_parts(exported), 1 Deserialize(tree), 2 bytes codec, 3 JSON, 4 clone
+	/// how: 0 from_parts(exported), 1 Deserialize(tree), 2 bytes codec, 3 JSON, 4 clone, 5 clone_from into a used window
 	Rebuild(u8),
 	Corrupt(Corrupt),
 	Sweep,
@@ -597,7 +597,21 @@ pub fn run_case<T: Elem>(case: &Case, stats: &mut Stats) -> Vec<Violation> {
 						Ok(s) => serde_json::from_str::<Window<T>>(&s).map_err(|e| e.to_string()),
 						Err(e) => Err(format!("json serialization failed: {e}")),
 					},
-					_ => Ok(w.clone()),
+					4 => Ok(w.clone()),
+					_ => {
+						// clone_from into an existing window of the same capacity at another rotation phase (and, for
+						// every third step, of another capacity): the destination must become the source
+						let cap = if step % 3 == 0 && (n as u64 + 1) < PMAX { (n + 1) as PeriodType } else { n as PeriodType };
+						let dst = guarded(|| {
+							let mut d: Window<T> = Window::new(cap, T::label(0));
+							for j in 0..(if cap == 0 { 0 } else { step % (n.max(1) + 2) }) {
+								d.push(T::label(900_000 + j as u32));
+							}
+							d.clone_from(&w);
+							d
+						});
+						dst
+					}
 				};
 				match rebuilt {
 					Ok(w2) => {
@@ -897,7 +911,7 @@ fn gen_ops(r: &mut Rng, n: u64, tier: Tier, faults: bool) -> Vec<WOp> {
 		// rebuilds and storage faults cost O(n) each as well
 		let big = if n > 300 { 60.0 / n as f64 } else { 1.0 };
 		if faults && r.chance(big * if dense { 0.25 } else { 0.06 }) {
-			ops.push(WOp::Rebuild(r.below(5) as u8));
+			ops.push(WOp::Rebuild(r.below(6) as u8));
 		}
 		if faults && r.chance(big * 0.05) {
 			ops.push(WOp::SerFail(r.next_u64() as u32));
